@@ -500,9 +500,11 @@ static bool model_step_inner(Model &m, Op &op) {
         if (nm == "_FillValue") return skip();
         MAtt *a = find_att(*l, nm);
         if (f.mode != FM_DEFINE) {
-            if (!a) return skip();
-            { auto pad4 = [](long long x) { return (x + 3) / 4 * 4; }; if (pad4((long long)op.att.v.size() * nc_type_size(op.att.type)) > pad4((long long)a->v.size() * nc_type_size(a->type))) return skip(); }   // data mode: permitted exactly when the padded size in the header does not grow
             if (f.mode == FM_INDEP) return skip();
+            if (m.safe_mode && m.nprocs > 1) { if (!a) return skip(); }
+            // data mode: permitted exactly when the attribute exists and its padded size in the header does not grow; otherwise refused with NC_ENOTINDEFINE and nothing changes
+            auto pad4 = [](long long x) { return (x + 3) / 4 * 4; };
+            if (!a || pad4((long long)op.att.v.size() * nc_type_size(op.att.type)) > pad4((long long)a->v.size() * nc_type_size(a->type))) { op.exp_rc = NC_ENOTINDEFINE; return true; }
         }
         long long mx = type_maxval(op.att.type);
         for (auto &x : op.att.v) x = 1 + (((x - 1) % mx) + mx) % mx;   // into [1, mx]; idempotent (programs are re-annotated on replay / by C10)
@@ -534,7 +536,7 @@ static bool model_step_inner(Model &m, Op &op) {
         if (sl == dl) return true;   // copying an attribute onto itself changes nothing
         MAtt *d = find_att(*dl, src.name);
         auto pad4 = [](long long x) { return (x + 3) / 4 * 4; };
-        if (g.mode != FM_DEFINE) { if (!d || g.mode == FM_INDEP) return skip(); if (pad4((long long)src.v.size() * nc_type_size(src.type)) > pad4((long long)d->v.size() * nc_type_size(d->type))) return skip(); }
+        if (g.mode != FM_DEFINE) { if (g.mode == FM_INDEP) return skip(); if (!d || pad4((long long)src.v.size() * nc_type_size(src.type)) > pad4((long long)d->v.size() * nc_type_size(d->type))) { op.exp_rc = NC_ENOTINDEFINE; return true; } }   // data mode: a new attribute or a larger padded size is refused, nothing changes
         if (!d) dl->push_back(src); else *d = src;
         return true;
     }
